@@ -1,4 +1,5 @@
 import EvyV.Model.Scope
+import EvyV.Gen.ScopeSites
 /-
 C05, the variable rules: what the parser's bookkeeping of scopes and use marks (Model/Scope.lean) accepts is
 well scoped in the sense of a specification that knows nothing of scope chains or marks —
@@ -566,6 +567,41 @@ theorem rule_breaking_program_is_rejected (p : Ss) (h : ¬ (scopedL [] [] p ∧ 
   cases hc : chkProg p with
   | false => rfl
   | true => exact absurd (accepted_program_is_well_scoped p hc) h
+
+/-! ### the tie to the source (T1)
+
+The scope operations of every function of pkg/parser that touches the scope chain, extracted from the working tree on
+every run (Gen/ScopeSites.lean), are the ones Model/Scope.lean transcribes: each branch of an if statement, a while
+statement, a for statement, a function and a handler push a scope BEFORE their header is read and leave it after
+their block; a for statement declares its loop variable before its range is read; an inferred declaration reads its
+value before it declares; lookups and assignment targets set the use mark; validateScope runs at the end of every
+block and of the program; and no other function touches the chain or a mark. -/
+
+theorem scope_sites_as_modelled :
+    Gen.scopeSites = [
+      ("parseProgram", ["push", "mark", "set", "stmt", "stmt", "stmt", "validate"]),
+      ("parseFunc", ["push", "defer-pop", "params", "block"]),
+      ("parseEventHandler", ["push", "defer-pop", "params", "block"]),
+      ("addParamsToScope", ["declTest", "set", "declTest", "set"]),
+      ("addEventParamsToScope", ["declTest", "set"]),
+      ("parseIfStatement", ["push", "condBlock", "pop", "push", "condBlock", "pop", "push", "block", "pop"]),
+      ("parseIfConditionalBlock", ["header", "block"]),
+      ("parseWhileStatement", ["push", "defer-pop", "header", "block"]),
+      ("parseForStatement", ["push", "defer-pop", "declTest", "set", "header", "block"]),
+      ("parseBlockWithEndTokens", ["stmt", "validate"]),
+      ("parseTypedDeclStatement", ["declTest", "set"]),
+      ("parseInferredDeclStatement", ["header", "declTest", "set"]),
+      ("parseAssignmentTarget", ["get", "mark"]),
+      ("lookupVar", ["get", "mark"]),
+      ("validateVarDecl", ["inLocal"]),
+      ("validateScope", []),
+      ("pushScope", ["to-given"]),
+      ("pushScopeWithNode", ["push"]),
+      ("popScope", ["to-outer"]),
+      ("get", ["outer.get"]),
+      ("set", []),
+      ("inLocalScope", [])] ∧
+    Gen.scopeSitesElsewhere = [] := by decide
 
 /-! ### the theorems are not vacuous, and the specification separates the cases it should -/
 
